@@ -2,6 +2,7 @@
 import argparse
 import json
 import os
+import re
 import shutil
 import types
 from fractions import Fraction
@@ -13,10 +14,10 @@ from gen import c01_cmp as CMP
 ID = "C01"
 PROPS = ["IsoVerif/Props/C01.lean", "IsoVerif/Props/C01Path.lean", "IsoVerif/Props/C01Far.lean",
          "IsoVerif/Props/C01Compare.lean", "IsoVerif/Props/C01Converse.lean", "IsoVerif/Props/C01Polya.lean",
-         "IsoVerif/Props/C01Follow.lean", "IsoVerif/Props/C01FakeTerminal.lean"]
+         "IsoVerif/Props/C01Follow.lean", "IsoVerif/Props/C01FakeTerminal.lean", "IsoVerif/Props/C01Tail.lean"]
 TARGETS = ["IsoVerif.Props.C01", "IsoVerif.Props.C01Path", "IsoVerif.Props.C01Far", "IsoVerif.Props.C01Compare",
            "IsoVerif.Props.C01Converse", "IsoVerif.Props.C01Polya", "IsoVerif.Props.C01Follow",
-           "IsoVerif.Props.C01FakeTerminal"]
+           "IsoVerif.Props.C01FakeTerminal", "IsoVerif.Props.C01Tail"]
 GEN_DEPS = ["Prims", "Enums", "EventClasses", "Strategies", "ComparatorTables"]
 LEVEL = "proof"
 RULE = ("seeded random annotations (1-3 overlapping / nested / antisense genes, 1-6 isoforms each: exon skipping, alt 5'/3' "
@@ -53,6 +54,16 @@ ASSUMPTIONS = ["CPython int semantics = Lean Int",
                "(class polya_outside_short_terminal_exon, evidence notes)",
                "score hypothesis of full_length_reported (score(T) >= 2/3 of every candidate's) is monitored by the oracle on "
                "the reported isoforms (reading rule: T reported unless another candidate's Jaccard score exceeds 3/2 of T's)",
+               "tail position (audit-2 C01-a): the oracle takes the tail a read carries from the REAL PolyAFinder + PolyAFixer "
+               "(external / internal polyA, polyT position of its BAM record; in-process: the four positions handed to the "
+               "profile constructor); reading rule: forward clause for T when no tail or a reported position within 2 bases of "
+               "T's annotated 3' end, distant end (converse clause) when every reported position is >= 200 bp from it, in between "
+               "unconstrained, a tail on T's 5' side is no tolerance.  The finder itself is watched by a position-only monitor "
+               "(finder_spec_check, 5 rules on the read sequence); Props/C01Tail.lean states the same dependence with apa_delta "
+               "as TailWithin / TailBeyond, whose Python forms (py_tail_within / py_tail_beyond / py_long_terminal) are trusted",
+               "forward clause: a follower of T is judged whatever the other isoforms are; only `T reported when full-length` "
+               "keeps the closest-annotated-intron rule (tie-loser rule of C13/C19); compatible-for-uniqueness = introns within "
+               "delta and span within max(min_abs_exon_overlap, delta) of the isoform's ends",
                "isoform ids are zero-padded so that their string order is the list order (the model uses list positions)",
                "nucleotide scores / penalty scores are exact rationals in the model; a case whose float decision in the "
                "real code differs from the exact decision is detected by Fraction recomputation, counted as "
@@ -591,6 +602,7 @@ def correspondence(ctx):
     ccases = classify_cases(ctx, 300 if quick else 3000)
     ctx.diff_batch("C01", ccases, lambda op, kw: impl_classify(kw))
     correspondence_polya_sentinel(ctx)
+    correspondence_tail_clause(ctx)
     correspondence_fake_terminal(ctx)
     # 1b. JunctionComparator.compare_junctions on its own: test corpus first, small universes, random and malformed chains
     correspondence_compare(ctx)
@@ -723,6 +735,151 @@ def correspondence_polya_sentinel(ctx):
             for e in mo:
                 ctx.count("polya_event:" + e[0])
             ctx.mark_nontrivial(["verify_read_ends", kw["isoforms"], kw["blocks"], kw["polya"]])
+
+
+# ---- audit-2 C01-a: the tail-position theorems (Props/C01Tail.lean) evaluated on the real PolyAVerifier
+
+def py_tail_within(d, stop, ext, int_):
+    """Props/C01Tail.lean `TailWithin`"""
+    return (ext != -1 and abs(stop - ext) <= d) or (int_ != -1 and abs(stop - int_) <= d)
+
+
+def py_tail_beyond(d, stop, ext, int_):
+    """Props/C01Tail.lean `TailBeyond`"""
+    return (ext != -1 or int_ != -1) and (ext == -1 or d < abs(stop - ext)) and (int_ == -1 or d < abs(stop - int_))
+
+
+def py_long_terminal(params, exons, front):
+    """Props/C01Tail.lean `LongTerminal`"""
+    L = lambda l: sum(e[1] - e[0] + 1 for e in l)
+    return all(L(exons[:c] if front else exons[len(exons) - c:]) > max(params.max_fake_terminal_exon_len, params.max_missed_exon_len)
+               for c in range(1, len(exons)))
+
+
+TAIL_ARTIFACTS = {"+": ("fake_terminal_exon_right", "terminal_exon_misalignment_right", "incomplete_intron_retention_right"),
+                  "-": ("fake_terminal_exon_left", "terminal_exon_misalignment_left", "incomplete_intron_retention_left")}
+
+
+def correspondence_tail_clause(ctx):
+    """`PolyAVerifier.verify_read_ends` on reads that follow a single isoform and are truncated anywhere, with the polyA /
+    polyT positions the finder reports for a soft-clipped tail or an A-/T-rich aligned end (internal priming), fed with the
+    event lists the comparator / elongation test produce (and with end artifacts).  (1) model == implementation (driver op
+    C01.verify_read_ends); (2) the CONCLUSIONS of `verifyPolya_tail_at_end` / `verifyPolyt_tail_at_end` and of
+    `verifyPolya_tail_far` / `verifyPolyt_tail_far` are evaluated on the real output whenever the Python form of their
+    hypotheses holds: a miss is a disagreement of op `tail_clause` (model := what the theorem says)."""
+    isoquant, GI, LP, LA, IA, PF = _impl()
+    rng = ctx.rng
+    n = 1500 if ctx.tier == "quick" else 30000
+    # the audit's probe first (docs: /tmp/audit2-A/probes/C01/p1_internal_priming.py)
+    E = [(5001, 5300), (5801, 6100), (6701, 7200), (7901, 8300)]
+    cases = [("default", "+", E, E[:2] + [(6701, 6925)], [-1, -1, 6901, -1], ["ism_right"]),
+             ("default", "+", E, E[:3] + [(7901, 8125)], [8125, -1, 8101, -1], ["ism_right"]),
+             ("default", "+", E, E, [8300, -1, -1, -1], ["fsm"]),
+             ("default", "-", E, [(5901, 6100)] + E[2:], [-1, -1, -1, 5925], ["ism_left"]),
+             ("default", "-", E, E, [-1, 5000, -1, -1], ["fsm"])]
+    pool = {"+": [[], ["fsm"], ["ism_right"], ["ism_internal"], ["mono_exon_match"], ["fsm", "exon_elongation_right"],
+                  ["ism_right", "major_exon_elongation_right"], ["fsm", "terminal_site_match_right"],
+                  ["fsm", "terminal_site_match_left_precise", "exon_elongation_right"], ["none"],
+                  ["fake_terminal_exon_right"], ["fsm", "terminal_exon_misalignment_right"],
+                  ["incomplete_intron_retention_right"], ["intron_retention", "exon_elongation_right"]],
+            "-": [[], ["fsm"], ["ism_left"], ["ism_internal"], ["mono_exon_match"], ["fsm", "exon_elongation_left"],
+                  ["ism_left", "major_exon_elongation_left"], ["fsm", "terminal_site_match_left"],
+                  ["fsm", "terminal_site_match_right_precise", "exon_elongation_left"], ["none"],
+                  ["fake_terminal_exon_left"], ["fsm", "terminal_exon_misalignment_left"],
+                  ["incomplete_intron_retention_left"], ["intron_retention", "exon_elongation_left"]]}
+    for _ in range(n):
+        strand = rng.choice("+-")
+        exons, pos = [], rng.randint(1, 3000)
+        for _ in range(rng.randint(1, 5)):
+            ln = rng.choice([rng.randint(5, 45), rng.randint(60, 105), rng.randint(110, 400), rng.randint(110, 400)])
+            exons.append((pos, pos + ln - 1))
+            pos += ln + rng.randint(60, 900)
+        k = len(exons)
+        i = rng.randint(0, k - 1)
+        j = rng.randint(i, k - 1)
+        blocks = [list(e) for e in exons[i:j + 1]]
+        if strand == "+":
+            if rng.random() < 0.6:
+                blocks[-1][1] -= rng.randint(0, max(0, blocks[-1][1] - blocks[-1][0] - 3))
+            e = blocks[-1][1]
+            ext = rng.choice([-1, e, e + 1, e - 2, e + rng.randint(2, 32), exons[-1][1], exons[-1][1] + rng.choice([-51, -50, 50, 51])])
+            int_ = rng.choice([-1, -1, e - rng.randint(0, 40), max(1, e - rng.randint(0, 64)), exons[-1][1] - rng.choice([0, 49, 50, 51])])
+            polya = [ext, -1, int_, -1]
+        else:
+            if rng.random() < 0.6:
+                blocks[0][0] += rng.randint(0, max(0, blocks[0][1] - blocks[0][0] - 3))
+            b = blocks[0][0]
+            ext = rng.choice([-1, max(1, b - 1), b, b + 2, max(1, b - rng.randint(2, 32)), exons[0][0], max(1, exons[0][0] + rng.choice([-51, -50, 50, 51]))])
+            int_ = rng.choice([-1, -1, b + rng.randint(0, 40), b + rng.randint(0, 64), exons[0][0] + rng.choice([0, 49, 50, 51])])
+            polya = [-1, ext, -1, int_]
+        if rng.random() < 0.1:
+            polya = [polya[1], polya[0], polya[3], polya[2]]          # tail on the wrong side: verify_read_ends ignores it
+        blocks = [tuple(x) for x in blocks]
+        if not A.valid_blocks(blocks) or not A.valid_blocks(exons):
+            continue
+        cases.append((rng.choice(A.PRESETS), strand, exons, blocks, polya, rng.choice(pool[strand])))
+    recs = []
+    for strategy, strand, exons, blocks, polya, evnames in cases:
+        params = make_params(strategy)
+        isoforms = [{"id": "t0000", "gene": "g0", "strand": strand, "exons": [tuple(e) for e in exons]}]
+        try:
+            built = Built(isoforms, params)
+            prof = built.profiles([tuple(b) for b in blocks], polya)
+        except ERRS:
+            continue
+        evs_in = [IA.MatchEvent(IA.MatchEventSubtype[e], event_info=(rng.randint(13, 400) if "elongation" in e else 0))
+                  for e in evnames]
+        ev_json = [event_json(e) for e in evs_in]
+        try:
+            io = [event_json(e) for e in built.assigner.polya_verifier.verify_read_ends(prof, "t0000", list(evs_in))]
+        except ERRS as ex:
+            io = {"error": "error", "exc": type(ex).__name__}
+        kw = {"isoforms": isoforms_json(isoforms), "params": params_json(params), "blocks": [list(b) for b in blocks],
+              "polya": polya, "iso": 0, "events": ev_json}
+        recs.append((kw, io, params, strand, exons, evnames))
+    outs = ctx.driver.run([vlib.req("C01.verify_read_ends", **r[0]) for r in recs])
+    for (kw, io, params, strand, exons, evnames), mo in zip(recs, outs):
+        ctx.evaluations += 1
+        ctx.traces_validated += 1
+        ctx.count("op:verify_read_ends_tail")
+        if isinstance(mo, dict) and "driver_error" in mo or not vlib.same(mo, vlib.canon(io)):
+            if len(ctx.disagreements) < 60:
+                ctx.disagree("verify_read_ends", kw, mo, io)
+            continue
+        if vlib.is_err(mo):
+            ctx.count("model_error")
+            continue
+        # the theorems' conclusions on the REAL output
+        polya = kw["polya"]
+        plus = strand == "+"
+        stop = exons[-1][1] if plus else exons[0][0]
+        ext, int_ = (polya[0], polya[2]) if plus else (polya[1], polya[3])
+        side = "right" if plus else "left"
+        elong = ("major_exon_elongation_" + side, "exon_elongation_" + side)
+        idx = [q for q, e in enumerate(kw["events"]) if e[0] in elong]
+        kept = [e for q, e in enumerate(kw["events"]) if not idx or q != idx[-1]]
+        art = any(e in TAIL_ARTIFACTS[strand] for e in evnames)
+        out = vlib.canon(io)
+        if py_tail_within(params.apa_delta, stop, ext, int_) and "incomplete_intron_retention_" + side not in evnames:
+            ctx.count("tail_clause:at_end")
+            ok = len(out) == len(kept) + 1 and vlib.same(out[:-1], vlib.canon(kept)) and out[-1][0] == "correct_polya_site_" + side \
+                and out[-1][3] in (ext, int_) and out[-1][3] != -1 and abs(stop - out[-1][3]) <= params.apa_delta
+            if not ok:
+                ctx.disagree("tail_clause", dict(kw, clause="tail_at_end"), "events minus one elongation + correct_polya_site_" + side, io)
+            else:
+                ctx.mark_nontrivial(["tail_at_end", kw["isoforms"], kw["blocks"], polya, evnames])
+        elif py_tail_beyond(params.apa_delta, stop, ext, int_) and not art and py_long_terminal(params, exons, not plus):
+            ctx.count("tail_clause:far")
+            want = int_ if int_ != -1 else ext
+            ok = len(out) == len(kept) + 1 and vlib.same(out[:-1], vlib.canon(kept)) and \
+                out[-1][0] == "alternative_polya_site_" + side and out[-1][3] == want
+            if not ok:
+                ctx.disagree("tail_clause", dict(kw, clause="tail_far"), "events minus one elongation + alternative_polya_site_%s %d"
+                             % (side, want), io)
+            else:
+                ctx.mark_nontrivial(["tail_far", kw["isoforms"], kw["blocks"], polya, evnames])
+        else:
+            ctx.count("tail_clause:outside_hypotheses(%s)" % ("no_tail" if ext == -1 and int_ == -1 else "artifact" if art else "near_or_missed_terminal"))
 
 
 FAKE_TERMINAL_WITNESSES = [
@@ -999,7 +1156,9 @@ def o_compatible(blocks, exons, d):
 
 
 def o_follows(blocks, t, all_introns, d):
-    """None if the read does not follow isoform t; else dict(full_length=bool)"""
+    """None if the read does not follow isoform t; else dict(full_length=bool).  `all_introns` = the annotated introns among
+    which T's intron has to be (one of) the closest to each read intron (tie-loser reading rule); passing T's own introns
+    drops that rule ("within delta of T, whatever the other isoforms are")"""
     exons = t["exons"]
     R, K = o_introns(blocks), o_introns(exons)
     if len(K) != len(exons) - 1:
@@ -1027,15 +1186,56 @@ def o_follows(blocks, t, all_introns, d):
     return None
 
 
+AT_END = 2             # "a polyA tail at T's 3' end": a reported tail position within the finder's own 2-base look-back of
+                       # T's annotated 3' end
+
+
+def norm_tails(tail):
+    """the tail positions a read carries, {"A": [...], "T": [...]} (reference positions reported by the polyA finder,
+    external and internal).  Accepts None, the old ("A"|"T", position) pair, or the dict itself."""
+    if tail is None:
+        return {"A": [], "T": []}
+    if isinstance(tail, dict):
+        return {"A": sorted(tail.get("A") or []), "T": sorted(tail.get("T") or [])}
+    return {"A": [tail[1]] if tail[0] == "A" else [], "T": [tail[1]] if tail[0] == "T" else []}
+
+
+def tails_of_polya(polya):
+    """[external polyA, external polyT, internal polyA, internal polyT] (-1 = absent) -> tails"""
+    return {"A": sorted({p for p in (polya[0], polya[2]) if p != -1}), "T": sorted({p for p in (polya[1], polya[3]) if p != -1})}
+
+
+def tail_status(strand, exons, tails):
+    """where the read's tail sits with respect to an isoform (reading rule DESIGN 6 / docs/C01.md "tail position"):
+      none        no tail on either side
+      wrong_side  a tail on the isoform's 5' side (polyT head for '+', polyA tail for '-'): not one of the tolerances
+      at_end      some reported position within AT_END of the annotated 3' end  -> forward clause applies
+      far         every reported position >= FAR_LEN from the annotated 3' end (and the isoform exons lying beyond the
+                  tail, if any, are longer than max_missed_exon_len together)   -> distant end, converse clause
+      near        anything else                                                 -> not constrained"""
+    rel, wrong = (tails["A"], tails["T"]) if strand == "+" else (tails["T"], tails["A"]) if strand == "-" else ([], [])
+    if wrong:
+        return "wrong_side"
+    if not rel:
+        return "none"
+    e3 = exons[-1][1] if strand == "+" else exons[0][0]
+    if any(abs(p - e3) <= AT_END for p in rel):
+        return "at_end"
+    if all(abs(p - e3) >= FAR_LEN for p in rel):
+        for p in rel:
+            beyond = [e for e in exons if e[0] >= p] if strand == "+" else [e for e in exons if e[1] <= p]
+            if beyond and len(beyond) < len(exons) and sum(e[1] - e[0] + 1 for e in beyond) <= 100:
+                return "near"      # `detect_reference_exons_beyond_polya`: missed terminal exons <= max_missed_exon_len
+        return "far"
+    return "near"
+
+
 def o_far_from(blocks, exons, strand=None, tail=None):
     """True when the read differs from the isoform by a structural change far beyond all tolerances.
-    tail = ("A", pos) / ("T", pos): the read carries a polyA (polyT) tail, i.e. its true 3' end is at pos; for an isoform
-    of the matching strand a 3' end at least FAR_LEN away is a distant end."""
-    if tail is not None:
-        if tail[0] == "A" and strand == "+" and abs(tail[1] - exons[-1][1]) >= FAR_LEN:
-            return True
-        if tail[0] == "T" and strand == "-" and abs(tail[1] - exons[0][0]) >= FAR_LEN:
-            return True
+    tail = the tail positions the read carries (norm_tails); for an isoform of the matching strand a tail at least
+    FAR_LEN away from the annotated 3' end is a distant end."""
+    if tail is not None and tail_status(strand, exons, norm_tails(tail)) == "far":
+        return True
     R, K = o_introns(blocks), o_introns(exons)
     span = (blocks[0][0], blocks[-1][1])
     ispan = (exons[0][0], exons[-1][1])
@@ -1083,34 +1283,57 @@ def skips_short_annotated_exon(isoforms, blocks):
 
 
 def check_assignment(isoforms, delta, blocks, tail, result, judge_follow=True):
-    """the property on one read.  result = {"type": str, "isoforms": [ids]}.  `tail` = None or ("A"|"T", position of the
-    read end carrying a polyA / polyT tail).  Returns list of (kind, detail).  judge_follow=False: only the converse
-    clause is evaluated (annotations with micro-features, where the forward clause's reading rules do not apply)."""
+    """the property on one read.  result = {"type": str, "isoforms": [ids]}.  `tail` = the tail positions the read carries
+    (None, the old ("A"|"T", position) pair, or {"A": [...], "T": [...]} as reported by the real polyA finder: see
+    tail_status).  Returns list of (kind, detail).  judge_follow=False: only the converse clause is evaluated (annotations
+    with micro-features, where the forward clause's reading rules do not apply: known finding micro_feature_sweep_skip).
+
+    Clauses and the isoforms they are judged on (audit-2 C01: the closest-intron rule no longer removes a read from ALL
+    clauses):
+      follows T within delta (T's own introns; tail absent or at T's 3' end)  -> type consistent, reported isoforms compatible,
+                                                                                  unique when only one isoform is compatible
+      ... and T's introns are the closest annotated ones (tie-loser rule)      -> T reported when full-length
+      follows T, tail elsewhere (near / wrong side)                            -> not constrained
+      far from every isoform (structure or tail >= FAR_LEN from the 3' end)     -> not consistent"""
     fails = []
+    tails = norm_tails(tail)
+    has_tail = bool(tails["A"] or tails["T"])
     by_id = {t["id"]: t for t in isoforms}
     all_introns = sorted({k for t in isoforms for k in o_introns(t["exons"])})
-    followed = {}
+    followed, followed_any, followed_struct = {}, {}, {}
     for t in isoforms:
+        f0 = o_follows(blocks, t, sorted(set(o_introns(t["exons"]))), delta)
+        if f0 is None:
+            continue
+        st = tail_status(t["strand"], t["exons"], tails)
+        followed_struct[t["id"]] = st
+        if st not in ("none", "at_end"):
+            # "a polyA tail at T's 3' end": a tail elsewhere is not one of T's tolerances
+            continue
+        followed_any[t["id"]] = f0
         f = o_follows(blocks, t, all_introns, delta)
-        if f is not None and tail is not None:
-            # "a polyA tail at T's 3' end": the tail sits at the annotated end of an isoform of the matching strand
-            if not ((tail[0] == "A" and t["strand"] == "+" and tail[1] == t["exons"][-1][1]) or
-                    (tail[0] == "T" and t["strand"] == "-" and tail[1] == t["exons"][0][0])):
-                f = None
         if f is not None:
             followed[t["id"]] = f
     rep = [i for i in result["isoforms"] if i in by_id]
     typ = result["type"]
-    if followed and not judge_follow:
+    if followed_struct and not judge_follow:
         return fails
-    if followed:
+
+    def reported_compatible():
+        for i in rep:
+            why = o_compatible(blocks, by_id[i]["exons"], delta)
+            if why:
+                fails.append(("reported_incompatible", "reported isoform %s: %s" % (i, why)))
+
+    if followed_any:
+        if has_tail:
+            monitor_count("oracle:forward_clause_with_tail_at_3p_end")
+        if len(followed) < len(followed_any):
+            monitor_count("oracle:follows_but_another_variant_is_closer(judged: consistent, compatible)")
         if typ not in CONSISTENT:
-            fails.append(("follows_not_consistent", "read follows %s but is reported %s %s" % (sorted(followed), typ, rep)))
+            fails.append(("follows_not_consistent", "read follows %s but is reported %s %s" % (sorted(followed_any), typ, rep)))
         else:
-            for i in rep:
-                why = o_compatible(blocks, by_id[i]["exons"], delta)
-                if why:
-                    fails.append(("reported_incompatible", "reported isoform %s: %s" % (i, why)))
+            reported_compatible()
             for tid, f in followed.items():
                 if f["full_length"] and tid not in rep:
                     # audit G3: the score hypothesis of `full_length_reported` (hbest / hmin) is MONITORED, not copied:
@@ -1126,16 +1349,27 @@ def check_assignment(isoforms, delta, blocks, tail, result, judge_follow=True):
                                       "reported as %s %s" % (tid, jt, best, typ, rep)))
                 elif f["full_length"]:
                     monitor_count("oracle:full_length_reported")
+            # span tolerance: min_abs_exon_overlap (10) - or the user's delta when that is larger: the real code calls an end
+            # within delta of the isoform's end a precise terminal match (terminal_site_match_*_precise) and reports such an
+            # isoform next to T (false alarm of the audit-2 round: --delta 20 / 50 with the tolerance hard-coded to 10)
+            tol = max(10, delta)
             comp = [t["id"] for t in isoforms if o_compatible(blocks, t["exons"], delta) is None and
-                    t["exons"][0][0] - 10 <= blocks[0][0] and blocks[-1][1] <= t["exons"][-1][1] + 10]
+                    t["exons"][0][0] - tol <= blocks[0][0] and blocks[-1][1] <= t["exons"][-1][1] + tol]
             if len(comp) == 1 and (rep != comp or typ not in ("unique", "unique_minor_difference")):
                 fails.append(("only_compatible_not_unique", "only %s is compatible; reported %s %s" % (comp, typ, rep)))
     else:
+        if followed_struct:
+            # the read follows an isoform but carries a tail that is neither absent nor at that isoform's 3' end: the type
+            # is decided by the tail (converse clause below when it is far from EVERY isoform's end)
+            for st in set(followed_struct.values()):
+                monitor_count("oracle:follows_with_tail_" + st)
         # the "fake terminal exon" tolerance can excuse at most the outermost exon (<= max_fake_terminal_exon_len) and its
         # intron: a read whose remaining blocks are far from every isoform is far whatever its outermost exons are
-        core = far_core(blocks, tail)
+        core = far_core(blocks, tails if has_tail else None)
         if min(b[1] - b[0] + 1 for b in core) >= FAR_EXON and not skips_short_annotated_exon(isoforms, blocks) and \
-                all(o_far_from(core, t["exons"], t["strand"], tail) for t in isoforms):
+                all(o_far_from(core, t["exons"], t["strand"], tails) for t in isoforms):
+            if has_tail and all(tail_status(t["strand"], t["exons"], tails) == "far" for t in isoforms):
+                monitor_count("oracle:far_by_tail_position_only" if followed_struct else "oracle:far_by_tail_and_structure")
             if typ in CONSISTENT:
                 fails.append(("far_read_consistent", "read is far from every isoform but reported %s %s" % (typ, rep)))
     return fails
@@ -1356,12 +1590,11 @@ def inprocess_result(built, blocks, polya):
 
 
 def tail_of(blocks, polya):
-    """the tail argument of check_assignment for external polyA/T positions right at the read ends"""
-    if polya[0] != -1 and polya[0] == blocks[-1][1] + 1:
-        return ("A", blocks[-1][1])
-    if polya[1] != -1 and polya[1] == max(1, blocks[0][0] - 1):
-        return ("T", blocks[0][0])
-    return None
+    """the tail argument of check_assignment: the four positions handed to the profile constructor ARE what the polyA finder
+    reported for the read (external / internal polyA, external / internal polyT); every combination is inside the domain
+    (audit-2 C01-a: positions away from the read ends used to be dropped as "outside the property's domain")"""
+    t = tails_of_polya(polya)
+    return t if (t["A"] or t["T"]) else None
 
 
 def oracle_inprocess_case(isoforms, strategy, blocks, polya, delta_override=None):
@@ -1370,20 +1603,17 @@ def oracle_inprocess_case(isoforms, strategy, blocks, polya, delta_override=None
     built = Built(isoforms, params)
     blocks = [tuple(b) for b in blocks]
     res = inprocess_result(built, blocks, polya)
-    tail = tail_of(blocks, polya)
-    if list(polya) != [-1, -1, -1, -1] and (tail is None or polya[2] != -1 or polya[3] != -1):
-        # internal polyA/T positions, or external ones away from the read ends: outside the property's domain
-        return [], res
-    return check_assignment(isoforms, params.delta, blocks, tail, res), res
+    return check_assignment(isoforms, params.delta, blocks, tail_of(blocks, polya), res), res
 
 
-def oracle_inprocess(ctx, n_worlds, reads_per_iso):
+def oracle_inprocess(ctx, n_worlds, reads_per_iso, user_delta=None):
+    """user_delta: `--delta` given by the user (audit-2: 20, 50 - beyond every preset; FAR_SITE = 100 stays far beyond it)"""
     rng = ctx.rng
     n = 0
     for _ in range(n_worlds):
         isoforms = oracle_annotation(rng)
         for strategy in A.PRESETS:
-            params = make_params(strategy)
+            params = make_params(strategy, delta=user_delta)
             built = Built(isoforms, params)
             for t in isoforms:
                 for _ in range(reads_per_iso):
@@ -1409,6 +1639,25 @@ def oracle_inprocess(ctx, n_worlds, reads_per_iso):
                         elif t["strand"] == "-" and at5:
                             blocks = [(t["exons"][0][0], blocks[0][1])] + blocks[1:]
                             polya[1] = max(1, blocks[0][0] - 1)
+                    elif kind == "follow" and rng.random() < 0.25:
+                        # audit-2 C01-a (internal priming): the finder reports a tail at / just inside the aligned end of a
+                        # read that is truncated anywhere: internal position (A-rich aligned end), external position (soft
+                        # clip behind it) or both; on T's 3' side ("prime") or on its 5' side ("prime_wrong_side")
+                        kind = "prime" if rng.random() < 0.8 else "prime_wrong_side"
+                        hi = (t["strand"] == "+") == (kind == "prime")
+                        how = rng.choice(["int", "int", "ext", "both"])
+                        if hi:
+                            e = blocks[-1][1]
+                            if how in ("int", "both"):
+                                polya[2] = e - rng.randint(0, min(40, blocks[-1][1] - blocks[-1][0]))
+                            if how in ("ext", "both"):
+                                polya[0] = e + rng.choice([-2, -1, 0, 0, 1])
+                        else:
+                            b = blocks[0][0]
+                            if how in ("int", "both"):
+                                polya[3] = b + rng.randint(0, min(40, blocks[0][1] - blocks[0][0]))
+                            if how in ("ext", "both"):
+                                polya[1] = max(1, b + rng.choice([-1, -1, 0, 1, 2]))
                     try:
                         res = inprocess_result(built, blocks, polya)
                     except ERRS as ex:
@@ -1416,9 +1665,9 @@ def oracle_inprocess(ctx, n_worlds, reads_per_iso):
                                                      "blocks": blocks, "polya": polya}, type(ex).__name__)
                         continue
                     n += 1
-                    ctx.count("oracle:" + kind)
+                    ctx.count("oracle:" + kind + ("" if user_delta is None else ":user_delta"))
                     for k, detail in check_assignment(isoforms, params.delta, blocks, tail_of(blocks, polya), res):
-                        ctx.fail(k, {"mode": "inprocess", "isoforms": strip(isoforms), "strategy": strategy,
+                        ctx.fail(k, {"mode": "inprocess", "isoforms": strip(isoforms), "strategy": strategy, "delta": user_delta,
                                      "blocks": [list(b) for b in blocks], "polya": polya, "reported_events": res["events"]},
                                  detail + " | events %s" % res["events"])
     return n
@@ -1710,10 +1959,87 @@ def oracle_polya_finder(ctx, n):
         judge_polya_outside(ctx, "finder", "default", "gen", ex, kw, read_exons, pa)
 
 
+def finder_spec_check(ctx, strategy, rec, aligned, pa):
+    """the oracle takes a read's tail from the REAL finder; this is an independent, position-only check of what the finder
+    reports (documented rule: a tail = 16 consecutive read bases with >= 12 A, looked for around the aligned end - external:
+    from 2 bases before it into the soft clip; internal: in the last 64 aligned bases, A-rich up to the end):
+      (1) a soft-clipped run of >= 20 A behind the aligned end   => an external polyA position within 2 bases of that end
+      (2) no soft clip at that end                               => no external position
+      (3) no 16-base window with >= 12 A in the last 66 aligned bases (+ 2 clipped) => no internal position
+      (4) an internal position p                                 => the read bases from p to the aligned end are >= 60 % A
+                                                                    (the code asks for 75 % of a string that may start one
+                                                                    base later and includes 2 clipped bases)
+      (5) the last 16 aligned bases all A, no clip, the 48 bases before them A-poor (every 16-window < 8 A, no AA in the
+          last 12)                                               => an internal position
+    mirrored (T, low-coordinate end).  A miss is the failure `finder_spec_violated`."""
+    seq = rec.query_sequence
+    cig = rec.cigartuples
+    if not seq or not cig:
+        return
+    for which, b in finder_spec_eval(seq, cig, aligned, pa, ctx):
+        ctx.fail("finder_spec_violated", {"mode": "finder_spec", "strategy": strategy, "read": rec.query_name, "cigar": rec.cigarstring,
+                                          "pos": rec.reference_start + 1, "side": which, "seq": seq},
+                 "polyA finder against its documented rule, poly%s side: %s" % (which, b))
+
+
+def finder_spec_eval(seq, cig, aligned, pa, ctx=None):
+    """-> [(side, what is wrong)]"""
+    comp = {"A": "T", "C": "G", "G": "C", "T": "A", "N": "N"}
+    out = []
+
+    def side(tail_seq_aligned, clip, ext, int_, end_pos, which, dist_of):
+        # tail_seq_aligned: aligned read bases, oriented so that the checked end is LAST and the tail base is 'A'
+        bad = []
+        if clip and len(clip) >= 20 and set(clip) == {"A"}:
+            if ext == -1 or abs(ext - end_pos) > 2:
+                bad.append("(1) %d clipped bases but external position %d (aligned end %d)" % (len(clip), ext, end_pos))
+        if not clip and ext != -1:
+            bad.append("(2) external position %d without a soft clip" % ext)
+        win = tail_seq_aligned[-66:] + clip[:2]
+        has = any(win[q:q + 16].count("A") >= 12 for q in range(0, max(1, len(win) - 15)))
+        if not has and int_ != -1:
+            bad.append("(3) internal position %d but no A-rich window" % int_)
+        if int_ != -1:
+            d = dist_of(int_)
+            if 0 <= d <= len(tail_seq_aligned) and d > 0:
+                seg = tail_seq_aligned[-d:]
+                if seg.count("A") < 0.6 * len(seg):
+                    bad.append("(4) internal position %d: %d A in the %d bases up to the aligned end" % (int_, seg.count("A"), len(seg)))
+        pre = win[:-16]
+        if not clip and len(tail_seq_aligned) >= 16 and set(tail_seq_aligned[-16:]) == {"A"} and int_ == -1 and \
+                not any(pre[q:q + 16].count("A") >= 8 for q in range(0, max(1, len(pre) - 15))) and "AA" not in pre[-12:]:
+            # (the finder judges the FIRST A-rich window of the last 64 bases: an earlier A-rich stretch, or an AA shortly
+            # before the run, can make it reject a genuine A-run at the end - such reads are not demanded)
+            bad.append("(5) 16 aligned A at the end behind A-poor sequence, no internal position")
+        out.extend((which, b) for b in bad)
+        if ctx is not None:
+            ctx.count("finder_spec:%s_checked" % which)
+            if int_ != -1:
+                ctx.count("finder_spec:%s_internal_reported" % which)
+            if ext != -1:
+                ctx.count("finder_spec:%s_external_reported" % which)
+
+    lclip = cig[0][1] if cig[0][0] == 4 else 0
+    rclip = cig[-1][1] if cig[-1][0] == 4 else 0
+    body = seq[lclip:len(seq) - rclip]
+    # indels make "bases from p to the end" approximate: rule (4) only when the last block carries no indel near the end
+    end1 = aligned[-1][1]
+    start1 = aligned[0][0]
+    side(body, seq[len(seq) - rclip:] if rclip else "", pa.external_polya_pos, pa.internal_polya_pos, end1, "A",
+         lambda p: end1 - p + 1 if aligned[-1][0] <= p else -1)
+    rc = lambda x: "".join(comp.get(c, "N") for c in reversed(x))
+    side(rc(body), rc(seq[:lclip]) if lclip else "", pa.external_polyt_pos, pa.internal_polyt_pos, start1 - 1, "T",
+         lambda p: p - start1 + 1 if p <= aligned[0][1] else -1)
+    return out
+
+
 def monitor_polya_outside_bam(ctx, bam_path, strategy):
-    """the hypothesis on every record of the BAM a pipeline run reads (same per-record code as the pipeline)"""
+    """the hypothesis on every record of the BAM a pipeline run reads (same per-record code as the pipeline).
+    -> {read name: (read exons after polyA-exon trimming, [external polyA, external polyT, internal polyA, internal polyT])}:
+    what the REAL finder reports for each record - the oracle's tail positions (audit-2 C01-a)"""
     import pysam
     params = make_params(strategy)
+    found = {}
     with pysam.AlignmentFile(bam_path, "rb") as f:
         for rec in f:
             if rec.is_unmapped or rec.is_secondary or rec.is_supplementary:
@@ -1724,16 +2050,21 @@ def monitor_polya_outside_bam(ctx, bam_path, strategy):
             except ERRS as e:
                 ctx.count("polya_outside:pipeline_raises_" + type(e).__name__)
                 continue
+            found[rec.query_name] = ([tuple(e) for e in read_exons],
+                                     [pa.external_polya_pos, pa.external_polyt_pos, pa.internal_polya_pos, pa.internal_polyt_pos])
+            if [tuple(e) for e in read_exons] == aligned:      # positions are re-mapped when the fixer trims polyA exons
+                finder_spec_check(ctx, strategy, rec, aligned, pa)
             judge_polya_outside(ctx, "pipeline", strategy, rec.query_name, aligned,
                                 {"cigar": rec.cigarstring, "pos": rec.reference_start + 1}, read_exons, pa)
+    return found
 
 
 def narrow_gene_lines(rng, gtf_path):
     """audit G7: the pipeline takes the gene region from the GTF `gene` line, the model from the span of the transcripts'
     exons.  Rewrites about half of the gene lines to a region NARROWER than the gene's transcripts (a malformed annotation:
-    start moved right / end moved left by up to 60 % of the span)"""
+    start moved right / end moved left by up to 60 % of the span).  -> {gene id: rewritten (start, end)}"""
     lines = open(gtf_path).read().splitlines()
-    n = 0
+    n = {}
     for i, ln in enumerate(lines):
         f = ln.split("\t")
         if len(f) > 8 and f[2] == "gene" and rng.random() < 0.5:
@@ -1745,7 +2076,7 @@ def narrow_gene_lines(rng, gtf_path):
                 b -= rng.randint(span // 10, max(span // 10, (6 * span) // 10))
             f[3], f[4] = str(a), str(b)
             lines[i] = "\t".join(f)
-            n += 1
+            n[re.search(r'gene_id "([^"]+)"', f[8]).group(1)] = (a, b)
     with open(gtf_path, "w") as fh:
         fh.write("\n".join(lines) + "\n")
     return n
@@ -1780,8 +2111,90 @@ def cigar_for(rng, blocks, indels):
     return "".join(parts)
 
 
-def build_pipeline_dataset(rng, n_chroms, clusters_per_chrom, reads_per_iso, delta):
-    """-> (Dataset, truth) with truth[read_name] = dict(chr, cluster, blocks, kind, tid)"""
+def plant_stretches(rng, seq, isoforms):
+    """audit-2 C01-a: A-/T-rich genomic stretches INSIDE exons (internal priming sites) and across annotated transcript
+    ends.  `seq` = list of bases (0-based), edited in place.  -> [(base, a, b)] 1-based closed, base in "AT"."""
+    out = []
+    exons = sorted({e for t in isoforms for e in t["exons"]})
+    for (a, b) in exons:
+        ln = b - a + 1
+        if ln >= 150 and rng.random() < 0.6:
+            run = rng.randint(13, 30)
+            s0 = rng.randint(a + 45, b - 25 - run) if b - 25 - run >= a + 45 else None
+            if s0 is not None:
+                base = rng.choice("AT")
+                body = [base] * run
+                for _ in range(rng.choice([0, 0, 1, 2])):          # an A-RICH stretch need not be pure
+                    body[rng.randint(1, run - 2)] = rng.choice("CG")
+                seq[s0 - 1:s0 - 1 + run] = body
+                out.append((base, s0, s0 + run - 1))
+    for t in isoforms:
+        if rng.random() < 0.15:
+            # the annotated 3' end itself lies in an A-rich (T-rich) stretch reaching into the exon
+            ins = rng.randint(0, 12)
+            if t["strand"] == "+":
+                e = t["exons"][-1][1]
+                if e + 20 <= len(seq) and t["exons"][-1][1] - t["exons"][-1][0] > 60:
+                    seq[e - ins:e + 18] = ["A"] * (18 + ins)
+                    out.append(("A", e - ins + 1, e + 18))
+            else:
+                e = t["exons"][0][0]
+                if e - 20 >= 1 and t["exons"][0][1] - t["exons"][0][0] > 60:
+                    seq[e - 19:e - 1 + ins] = ["T"] * (18 + ins)
+                    out.append(("T", e - 18, e - 1 + ins))
+    return out
+
+
+def prime_read(rng, t, stretches, delta):
+    """a read following t (exact or <= delta jittered splice sites) that is truncated so that its aligned end lies in / just
+    behind an A-rich stretch (high-coordinate end) or in / just before a T-rich stretch (low-coordinate end); the stretch may
+    be on t's 3' side (internal priming) or on its 5' side.  -> (blocks, soft-clip base or None)"""
+    ex = t["exons"]
+    cand = [(base, a, b, j) for (base, a, b) in stretches for j, e in enumerate(ex) if e[0] + 30 <= a and b <= e[1]]
+    if not cand:
+        return None, None
+    base, a, b, j = rng.choice(cand)
+    n = len(ex)
+    if base == "A":
+        i = rng.randint(0, j)
+        end = min(ex[j][1], b + rng.choice([-7, -4, -2, 0, 0, 0, 1, 3, 5]))
+        sub = [list(e) for e in ex[i:j + 1]]
+        sub[-1][1] = end
+        l0 = ex[i][1] - ex[i][0] + 1
+        if i < j:
+            sub[0][0] = ex[i][0] + (rng.randint(0, min(40, l0 // 8)) if i == 0 else rng.randint(0, max(0, l0 - 40)))
+        else:
+            sub[0][0] = ex[i][0] + rng.randint(0, max(0, a - ex[i][0] - 30))
+    else:
+        i = j
+        j = rng.randint(i, n - 1)
+        start = max(ex[i][0], a - rng.choice([-7, -4, -2, 0, 0, 0, 1, 3, 5]))
+        sub = [list(e) for e in ex[i:j + 1]]
+        sub[0][0] = start
+        l1 = ex[j][1] - ex[j][0] + 1
+        if i < j:
+            sub[-1][1] = ex[j][1] - (rng.randint(0, min(40, l1 // 8)) if j == n - 1 else rng.randint(0, max(0, l1 - 40)))
+        else:
+            sub[-1][1] = ex[j][1] - rng.randint(0, max(0, ex[j][1] - b - 30))
+    for k in range(len(sub) - 1):
+        sub[k][1] += rng.randint(-delta, delta)
+        sub[k + 1][0] += rng.randint(-delta, delta)
+    blocks = [tuple(e) for e in sub]
+    if not A.valid_blocks(blocks):
+        return None, None
+    return blocks, (base if rng.random() < 0.3 else None)
+
+
+def random_genome(rng, length):
+    return "".join(rng.choice("ACGT") for _ in range(length))
+
+
+def build_pipeline_dataset(rng, n_chroms, clusters_per_chrom, reads_per_iso, delta, genome="stretches", borders=True):
+    """-> (Dataset, clusters, truth) with truth[read_name] = dict(chr, cluster, blocks, kind, tid).
+    genome: "stretches" = quiet background (no AA / TT at even offsets) + planted A-/T-rich stretches inside exons and across
+    transcript ends (audit-2 C01-a); "random" = uniform random bases (A-rich windows occur by chance); "quiet" = the old
+    genome.  The tail a read carries is NOT taken from here: the oracle asks the real polyA finder (oracle_pipeline).
+    borders: on the first chromosome the first cluster starts at base 1 and the last cluster ends at the last base."""
     from gen import synth
     ds = synth.Dataset(rng.randint(1, 10 ** 9))
     truth = {}
@@ -1791,18 +2204,24 @@ def build_pipeline_dataset(rng, n_chroms, clusters_per_chrom, reads_per_iso, del
         chrom = "chr%d" % (c + 1)
         placed = []
         offset = 2000
+        at_border = borders and c == 0
         for ci in range(clusters_per_chrom):
             iso = oracle_annotation(rng)
             lo = min(t["exons"][0][0] for t in iso)
             hi = max(t["exons"][-1][1] for t in iso)
-            shift = offset - lo + 1000
+            shift = (1 - lo) if (at_border and ci == 0) else offset - lo + 1000
             for t in iso:
                 t["exons"] = [(a + shift, b + shift) for a, b in t["exons"]]
                 t["id"] = "%s_c%d_%s" % (chrom, ci, t["id"])
                 t["gene"] = "%s_c%d_%s" % (chrom, ci, t["gene"])
             offset = hi + shift + 6000       # clusters far apart: separate GeneInfo objects / read regions
             placed.append(iso)
-        ds.chroms[chrom] = quiet_genome(rng, offset + 5000)
+        length = (offset - 6000) if at_border else offset + 5000
+        seq = list(random_genome(rng, length) if genome == "random" else quiet_genome(rng, length))
+        stretches = {}
+        for ci, iso in enumerate(placed):
+            stretches[ci] = plant_stretches(rng, seq, iso) if genome == "stretches" else []
+        ds.chroms[chrom] = "".join(seq)
         for ci, iso in enumerate(placed):
             clusters[(chrom, ci)] = iso
             genes = {}
@@ -1812,7 +2231,13 @@ def build_pipeline_dataset(rng, n_chroms, clusters_per_chrom, reads_per_iso, del
                 ds.add_gene(chrom, gid, strand, txs, plant=True)
             for t in iso:
                 for _ in range(reads_per_iso):
-                    if rng.random() < 0.7:
+                    clip = None
+                    r0 = rng.random()
+                    if r0 < 0.2 and stretches[ci]:
+                        blocks, clip = prime_read(rng, t, stretches[ci], delta)
+                        kind = "prime"
+                        at5 = at3 = False
+                    elif r0 < 0.75:
                         blocks, at5, at3 = oracle_follow_read(rng, t, delta)
                         kind = "follow"
                     else:
@@ -1821,6 +2246,10 @@ def build_pipeline_dataset(rng, n_chroms, clusters_per_chrom, reads_per_iso, del
                     if blocks is None:
                         continue
                     pa = pt = 0
+                    if clip == "A":
+                        pa = rng.randint(15, 30)
+                    elif clip == "T":
+                        pt = rng.randint(15, 30)
                     if kind == "apa":
                         if t["strand"] == "+":
                             pa = rng.randint(20, 35)
@@ -1833,39 +2262,47 @@ def build_pipeline_dataset(rng, n_chroms, clusters_per_chrom, reads_per_iso, del
                         elif t["strand"] == "-" and at5:
                             blocks = [(t["exons"][0][0], blocks[0][1])] + blocks[1:]
                             pt = rng.randint(20, 35)
-                    if not A.valid_blocks(blocks):
+                    if not A.valid_blocks(blocks) or blocks[0][0] < 1 or blocks[-1][1] > length:
                         continue
                     name = "r%06d" % rid
                     rid += 1
                     cig = ("%dS" % pt if pt else "") + cigar_for(rng, blocks, indels=(kind == "follow")) + ("%dS" % pa if pa else "")
                     ds.add_read(name, chrom, blocks[0][0] - 1, cig, flag=(16 if t["strand"] == "-" else 0), mapq=60)
                     r = ds.reads[-1]
-                    seq = ds._seq_for(r)
+                    seq_r = ds._seq_for(r)
                     if pt:
-                        seq = "T" * pt + seq[pt:]
+                        seq_r = "T" * pt + seq_r[pt:]
                     if pa:
-                        seq = seq[:len(seq) - pa] + "A" * pa
-                    r["seq"] = seq
+                        seq_r = seq_r[:len(seq_r) - pa] + "A" * pa
+                    r["seq"] = seq_r
                     truth[name] = {"chr": chrom, "cluster": ci, "blocks": [list(b) for b in blocks], "kind": kind,
                                    "tid": t["id"], "polya": bool(pa or pt),
-                                   "tail": ["A", blocks[-1][1]] if pa else (["T", blocks[0][0]] if pt else None)}
+                                   "at_border": bool(at_border and (blocks[0][0] == 1 or blocks[-1][1] == length))}
     return ds, clusters, truth
 
 
-def oracle_pipeline(ctx, strategies, n_chroms, clusters_per_chrom, reads_per_iso, narrow_genes=False):
+def oracle_pipeline(ctx, strategies, n_chroms, clusters_per_chrom, reads_per_iso, narrow_genes=False, genome="stretches"):
+    """strategies: preset names, or (preset, delta) for a user `--delta` (audit-2: 20, 50 - beyond every preset)"""
     import pipeline as P
     rng = ctx.rng
     n = 0
     for strategy in strategies:
-        delta = make_params(strategy).delta
+        user_delta = None
+        if isinstance(strategy, (tuple, list)):
+            strategy, user_delta = strategy
+        delta = make_params(strategy, delta=user_delta).delta
         d = P.scratch("isoverif_c01_")
         try:
-            ds, clusters, truth = build_pipeline_dataset(rng, n_chroms, clusters_per_chrom, reads_per_iso, delta)
+            ds, clusters, truth = build_pipeline_dataset(rng, n_chroms, clusters_per_chrom, reads_per_iso, min(delta, 12)
+                                                         if user_delta is None else delta, genome=genome)
             paths = ds.write(os.path.join(d, "in"))
+            narrowed = {}
             if narrow_genes:
-                ctx.count("pipeline:gene_lines_narrowed", narrow_gene_lines(rng, paths["gtf"]))
+                narrowed = narrow_gene_lines(rng, paths["gtf"])
+                ctx.count("pipeline:gene_lines_narrowed", len(narrowed))
+            found = {}
             try:
-                monitor_polya_outside_bam(ctx, paths["bam"], strategy)
+                found = monitor_polya_outside_bam(ctx, paths["bam"], strategy)
             except ERRS as e:
                 ctx.notes.append("PolyAOutside monitor could not read the BAM: %s" % type(e).__name__)
             out = os.path.join(d, "out")
@@ -1875,7 +2312,8 @@ def oracle_pipeline(ctx, strategies, n_chroms, clusters_per_chrom, reads_per_iso
             import mon_wrap
             mon = os.path.join(d, "mon.jsonl")
             rc, log = P.run_isoquant(out, P.std_args(paths, prefix="S", threads=2,
-                                                     extra=["--matching_strategy", strategy, "--no_model_construction"]),
+                                                     extra=["--matching_strategy", strategy, "--no_model_construction"] +
+                                                     (["--delta", str(user_delta)] if user_delta is not None else [])),
                                      wrapper=os.path.join(vlib.HERE, "mon_wrap.py"),
                                      env={"MON_FILE": mon, "MON_SET": "elong,binsearch,c14events,penalty"})
             calls, viol = mon_wrap.read_monitor(mon)
@@ -1908,16 +2346,36 @@ def oracle_pipeline(ctx, strategies, n_chroms, clusters_per_chrom, reads_per_iso
                     ctx.fail("mixed_types", {"mode": "pipeline", "strategy": strategy, "read": tr}, str(sorted(types)))
                     continue
                 iso = clusters[(tr["chr"], tr["cluster"])]
+                if narrowed:
+                    # a read lying entirely outside the rewritten gene line of its own gene: the (malformed) annotation says
+                    # the gene is not there - such a read alone in its cluster is intergenic; not judged
+                    g = next((t["gene"] for t in iso if t["id"] == tr["tid"]), None)
+                    if g in narrowed and (tr["blocks"][-1][1] < narrowed[g][0] or narrowed[g][1] < tr["blocks"][0][0]):
+                        ctx.count("pipeline:read_outside_narrowed_gene_line(not judged)")
+                        continue
                 res = {"type": types.pop(), "isoforms": sorted(r["isoform_id"] for r in rr if r["isoform_id"] not in (".", "*", "")),
                        "events": {r["isoform_id"]: r.get("assignment_events", "") for r in rr}}
                 n += 1
                 ctx.count("pipeline:" + tr["kind"])
                 ctx.count("pipeline_type:%s:%s" % (tr["kind"], res["type"]))
+                if tr.get("at_border"):
+                    ctx.count("pipeline:read_touching_contig_border")
                 blocks = [tuple(b) for b in tr["blocks"]]
-                for k, detail in check_assignment(iso, delta, blocks, tuple(tr["tail"]) if tr["tail"] else None, res):
-                    ctx.fail(k, {"mode": "pipeline", "isoforms": strip(iso), "strategy": strategy, "blocks": tr["blocks"],
-                                 "polya_tail": tr["polya"], "derived_from": tr["tid"], "reported_events": res["events"],
-                                 "gene_lines_narrowed": narrow_genes},
+                # the tail the read carries = what the REAL finder reports for its record (never the generator's intention)
+                if name not in found:
+                    ctx.fail("read_missing", {"mode": "pipeline", "strategy": strategy, "read": tr}, "no finder result for %s" % name)
+                    continue
+                fexons, polya = found[name]
+                if fexons != blocks:
+                    ctx.count("pipeline:polya_exons_trimmed_by_fixer" if len(fexons) < len(blocks) else "pipeline:read_exons_differ")
+                    blocks = fexons          # the assigner is given the read without its polyA exons (PolyAFixer; C16)
+                tails = tail_of(blocks, polya)
+                if tails:
+                    ctx.count("pipeline_tail:%s:%s" % (tr["kind"], "+".join(k for k, v in zip(("extA", "extT", "intA", "intT"), polya) if v != -1)))
+                for k, detail in check_assignment(iso, delta, blocks, tails, res):
+                    ctx.fail(k, {"mode": "pipeline", "isoforms": strip(iso), "strategy": strategy, "blocks": [list(b) for b in blocks],
+                                 "polya": polya, "delta": user_delta, "derived_from": tr["tid"], "read_kind": tr["kind"],
+                                 "reported_events": res["events"], "gene_lines_narrowed": narrow_genes},
                              detail + " | events %s" % res["events"])
         finally:
             shutil.rmtree(d, ignore_errors=True)
@@ -1977,8 +2435,8 @@ def in_domain(isoforms, blocks, polya, delta):
     """the input domain on which the oracle may judge an arbitrary (correspondence-generated) input: the property's
     tolerances are stated for real exons / introns; micro-features (shorter than the fake-terminal-exon, absence-overlap
     or delta thresholds) and polyA positions away from the 3' end are outside it (docs/C01.md, reading rules)"""
-    if list(polya) != [-1, -1, -1, -1] or delta > 12:
-        return False
+    if delta > 50:
+        return False          # FAR_SITE (100) has to stay far beyond delta; user deltas 20 / 50 are inside (audit-2)
     if min(b[1] - b[0] + 1 for b in blocks) < FAR_EXON:
         return False
     for a, b in o_introns(blocks):
@@ -2024,6 +2482,9 @@ def oracle(ctx, disagreements, broken):
     MONITOR.clear()
     replay_reading_rule_witnesses(ctx)
     n = oracle_inprocess(ctx, 150 if quick else 3000, 3 if quick else 5)
+    # audit-2: user --delta 20 / 50 (the correspondence seeds with delta > 12 are no longer dropped either: in_domain)
+    for ud in (20, 50):
+        n += oracle_inprocess(ctx, 15 if quick else 300, 3 if quick else 5, user_delta=ud)
     ctx.extra["oracle_inprocess_reads"] = n
     # audit G4-G6: annotations with short exons / introns (outside the old generator domain)
     n = oracle_inprocess_wide(ctx, 120 if quick else 2500, 3 if quick else 4)
@@ -2032,9 +2493,16 @@ def oracle(ctx, disagreements, broken):
     # audit G2: the hypothesis PolyAOutside on the real PolyAFinder (search + the audit's witness)
     oracle_polya_finder(ctx, 400 if quick else 8000)
     # 3. the same check on read_assignments.tsv of real pipeline runs, one per matching strategy
+    #    (genome with planted A-/T-rich stretches in exons; first chromosome: clusters at base 1 and at the last base)
     n = oracle_pipeline(ctx, A.PRESETS, 2 if quick else 4, 6 if quick else 14, 5 if quick else 12)
-    # audit G7: one more run on a GTF whose gene lines are narrower than their transcripts (malformed annotation)
-    n += oracle_pipeline(ctx, ["default"], 1 if quick else 2, 5 if quick else 12, 4 if quick else 10, narrow_genes=True)
+    # audit G7: one more run on a GTF whose gene lines are narrower than their transcripts (malformed annotation); uniform
+    # random genome (no "quiet" assumption at all)
+    n += oracle_pipeline(ctx, ["default"], 1 if quick else 2, 5 if quick else 12, 4 if quick else 10, narrow_genes=True,
+                         genome="random")
+    # audit-2: user --delta beyond every preset
+    n += oracle_pipeline(ctx, [("default", 20), ("precise", 50)] if quick else [("default", 20), ("default", 50), ("precise", 50),
+                                                                               ("loose", 20)],
+                         1 if quick else 2, 5 if quick else 12, 4 if quick else 10)
     ctx.extra["oracle_pipeline_reads"] = n
     for k, v in MONITOR.items():
         ctx.count(k, v)
@@ -2116,6 +2584,20 @@ def replay(ctx, failure):
         params = make_params(inp.get("strategy", "default"))
         params.delta = c["params"]["delta"]
         return vlib.is_err(CMP.impl_compare(c, params)[0])
+    if inp.get("mode") == "finder_spec":
+        # the record is rebuilt from its CIGAR, position and read sequence; real AlignmentInfo + PolyAFinder + PolyAFixer again
+        if "seq" not in inp:
+            return False
+        import pysam
+        a = pysam.AlignedSegment(pysam.AlignmentHeader.from_dict({"HD": {"VN": "1.6"}, "SQ": [{"SN": "chr1", "LN": 10 ** 8}]}))
+        a.query_name, a.flag, a.reference_id, a.reference_start, a.mapping_quality = "r", 0, 0, inp["pos"] - 1, 60
+        a.cigarstring = inp["cigar"]
+        a.query_sequence = inp["seq"]
+        aligned = [(x + 1, y) for x, y in a.get_blocks()]
+        read_exons, pa = real_polya_info(a, make_params(inp.get("strategy", "default")))
+        if [tuple(e) for e in read_exons] != aligned:
+            return False
+        return any(w == inp.get("side") for w, _ in finder_spec_eval(inp["seq"], a.cigartuples, aligned, pa))
     if inp.get("mode") == "polya_finder":
         # audit G2 monitor: rebuild the record (quiet reference; only the aligned bases next to the tail matter) and re-run
         # the real AlignmentInfo + PolyAFinder + PolyAFixer
